@@ -354,9 +354,11 @@ Definition add_covariate_effect (T : templates) (a : cov_args) (l : list stmt) :
   | None => None                                   (* assert last_existing_parameter_assignment is not None *)
   | Some i =>
       let eff_rhs := subs_map [(s_p, Sym (a_param a)); (s_effect, Sym (a_effect a))] (t_effect_rhs T (a_op a)) in
+      (* the effect symbol is reused (nested effect of the same covariate): nothing is grouped *)
+      let covp := if existsb (is_assign_of (a_effect a)) sset then [] else a_cov_possible a in
       match nths sset i with
       | Assign _ last_e =>
-          if all_args_in last_e (a_cov_possible a)
+          if all_args_in last_e covp
           then Some (firstn i sset ++ [tmpl; Assign (a_param a) (subs (a_param a) last_e eff_rhs)] ++ skipn (S i) sset)
           else Some (firstn (S i) sset ++ [tmpl; Assign (a_param a) eff_rhs] ++ skipn (S i) sset)
       | _ => None
@@ -391,14 +393,24 @@ Definition emitted (T : templates) (a : cov_args) (ts : id) : bool := memp ts (f
 Fixpoint nodupb (l : list id) : bool :=
   match l with [] => true | x :: tl => negb (memp x tl) && nodupb tl end.
 
-(* the new names (effect symbol, statistic symbols) are fresh for the program and distinct; covariate, thetas
-   and parameter are not among them and are not template placeholders that get substituted; every statistic
-   the documented formula uses is emitted by the code's template *)
+(* the statistic symbols are fresh for the program and distinct; the effect symbol is not a statistic symbol, is
+   not read after the insertion point and — when the program does not assign it (then the code may group) — not by
+   the parameter's last assignment; covariate, thetas and parameter are not among the new names and are not template
+   placeholders that get substituted; every statistic the documented formula uses is emitted by the code's template.
+   (Since fix 73c85ed the effect symbol may already be assigned and read by earlier statements: nested effects.) *)
 Definition g_surgery (T : templates) (a : cov_args) (l : list stmt) : bool :=
   let F := fresh_names a in
+  let Fs := stat_names (a_stats a) in
   let keys := stat_keys (a_stats a) in
   let e0D := effect_expr doc_templates (a_kind a) (a_cats a) (a_mc a) in
-  forallb (fun x => negb (memp x (flat_map defs l)) && negb (memp x (flat_map rhs l))) F
+  forallb (fun x => negb (memp x (flat_map defs l)) && negb (memp x (flat_map rhs l))) Fs
+  && negb (memp (a_effect a) Fs)
+  && match find_assignment_index l (a_param a) with
+     | Some i =>
+         negb (memp (a_effect a) (flat_map rhs (skipn (S i) l))) &&
+         (existsb (is_assign_of (a_effect a)) l || negb (memp (a_effect a) (rhs (nths l i))))
+     | None => true
+     end
   && negb (memp (a_param a) F)
   && nodupb (stat_names (a_stats a))
   && forallb (fun nm => negb (memp nm keys)) (stat_names (a_stats a))
